@@ -127,7 +127,7 @@ def normalize_rules(F, rep, f):
     if not rep.anchor(rule, "PEP440::normalize", norm): return
     nf = norm[0]
     cg = mir.CallGraph(F)
-    reach = [F.fns[p] for p in cg.closure([nf.path]) if p in F.fns and p.startswith("crate::version::pep440::core::")]
+    reach = [F.fns[p] for p in cg.closure([nf.path], generic=False) if p in F.fns and p.startswith("crate::version::pep440::core::")]
     rep.fn_seen(*reach)
     # implicit numbers: rows (X_label is Some) & (X_number is None) -> X_number = Some(0)
     rows = {}
